@@ -68,15 +68,18 @@ def time_limit(seconds):
 def quiet():
     """Silence stdout/stderr/logging of the code under test."""
     import logging
-    prev = logging.root.manager.disable
-    logging.disable(logging.CRITICAL)
+    # records are swallowed by a NullHandler instead of logging.disable(): isEnabledFor(DEBUG) must be
+    # TRUE during the DEBUG-level passes (impl.maybe_debug), otherwise code guarded by it is never run
+    root = logging.getLogger()
+    saved = root.handlers[:]
+    root.handlers = [logging.NullHandler()]
     so, se = sys.stdout, sys.stderr
     sys.stdout, sys.stderr = io.StringIO(), io.StringIO()
     try:
         yield
     finally:
         sys.stdout, sys.stderr = so, se
-        logging.disable(prev)
+        root.handlers = saved
 
 
 # ------------------------------------------------------------------------------------------
@@ -258,7 +261,8 @@ def write_evidence(ctx, proof, n_viol):
         "violations": n_viol,
         "notes": ctx.notes,
     }
-    d = os.path.join(VERIF, "evidence")
+    # runs against another tree than /repo (CR_REPO: evaluation of seeded changes) never touch the committed evidence
+    d = os.path.join(VERIF, "evidence") if REPO == "/repo" else os.path.join(VERIF, "replays", "evidence-other-tree")
     os.makedirs(d, exist_ok=True)
     with open(os.path.join(d, f"{ctx.prop}.json"), "w") as f:
         json.dump(jsonable(ev), f, indent=1)
